@@ -3,5 +3,5 @@ CONSTANTS
   FixR = FALSE
   Q = 3
   Proto = "com_eq_different_groups"
-INVARIANTS Complete ResponseBound StatementBound SpecialSound
+INVARIANTS Complete ResponseBound StatementBound EveryRowChecked SpecialSound
 CHECK_DEADLOCK FALSE
